@@ -169,6 +169,7 @@ func checkC01(c *Ctx) {
 	c.Rule("C01.R4", "certificateParserAndVerifier is fail-closed: with a policy and without InsecureSkipVerify success requires AuthKeys.VerifyLeaf==nil or Store.VerifyLeaf==nil on the parsed leaf, name/time copied from the policy, parse errors and extra bytes rejected, callback error fatal (E1 decision table)")
 	c.Rule("C01.R5", "key-possession binding: after the verifier call a DH/Agree with the verified leaf's public key is absorbed and followed by a MAC compare-and-abort (or, hidden server, by remoteStatic=leaf.PublicKey and Agree(remoteStatic) absorbed before the keys are derived) (E1 order)")
 	c.Rule("C01.R6", "publish after authentication: pendingConnections is sent to only in finishHandshake, which is called only after the ClientAuth / hidden-request reader returned nil; session keys and handle are stored only there; client state goes Open only after the begin*Handshake call returned nil (E4 who-may + E1)")
+	c.Rule("C01.R7", "fresh DH ephemerals: every handshake state that computes a DH generates its X25519 ephemeral with Generate() (crypto/rand) on every creating path and nothing else writes its key bytes; KEM operations draw from crypto/rand.Reader (a predictable ephemeral lets the counterpart compute the DH outputs that prove key possession) (E4 who-may-write + E1)")
 	c.Decides("(b,d) every squeezed handshake MAC is verified and fatal on mismatch; (a,c) verification runs with the configured policy and its failure is fatal; publication/acceptance is ordered after authentication; key-possession DH is bound into the verified MAC")
 	c.NotDecided("that the MAC/DH/KEM primitives are cryptographically sound; correctness of certs/authkeys verification itself (C04)")
 
@@ -183,6 +184,7 @@ func checkC01(c *Ctx) {
 	c01R3(c, live)
 	c01R4(c)
 	c01R6(c, live)
+	freshInputsRule(c, "C01.R7")
 }
 
 // ---------------------------------------------------------------------------
